@@ -522,7 +522,20 @@ impl Engine for CliSim {
             if mode.contains("invalid") || (mode == "mixed" && r.chance(1, 4)) {
                 inv.invalid = Some(match r.below(3) {
                     0 => Invalid::NonPrintableCountry(r.pick(&["D€", "U_", "A@", "ü1", "a*", "&b", "x;", "#!"]).to_string()),
-                    1 => Invalid::NonAsciiSan(r.pick(&["bücher.example", "例え.jp", "caf\u{e9}.fr", "a.b.ç"]).to_string()),
+                    1 => Invalid::NonAsciiSan(if r.bool() {
+                        r.pick(&["bücher.example", "例え.jp", "caf\u{e9}.fr", "a.b.ç"]).to_string()
+                    } else {
+                        // host-like text of any length with 1-4 characters of 2, 3 or 4 bytes at
+                        // arbitrary byte positions (diagnostics that quote or cut the value meet
+                        // every alignment of a character boundary)
+                        let n = *r.pick(&[3u64, 20, 62, 63, 64, 65, 66, 126, 127, 128, 129, 254, 255, 256, 257]) + r.below(3);
+                        let mut chars: Vec<char> = (0..n).map(|i| if i % 9 == 8 { '.' } else { *r.pick(&['a', 'k', 'z', '0', '7', '-']) }).collect();
+                        for _ in 0..r.range(1, 4) {
+                            let at = if r.bool() { r.usize(chars.len() + 1) } else { chars.len().min(*r.pick(&[16usize, 32, 64, 128, 256]) - 4 + r.usize(8)) };
+                            chars.insert(at, *r.pick(&['ü', 'é', 'ß', '例', '€', '😀', '\u{10348}']));
+                        }
+                        chars.into_iter().collect()
+                    }),
                     _ => Invalid::UnsupportedAlg(if backend() == "aws_lc_rs" { "--ecdsa-p224".into() } else { r.pick(&["--rsa", "--ecdsa-p521"]).to_string() }),
                 });
             }
